@@ -301,6 +301,47 @@ def _get_object_type_name(
     return t.get_name(ctx.schema)
 
 
+def _get_collection_name(
+    t: s_types.Collection,
+    *,
+    ctx: Context,
+) -> s_name.Name:
+    """Return the name under which a tuple or array type is described.
+
+    This is the name of the material type, except that the names of
+    object types among the (nested) elements are the ones they are
+    described under (see _get_object_type_name): the schema name of
+    a collection embeds the names of its elements, and those of compound
+    types contain transient view names.
+    """
+    def has_object(ct: s_types.Type) -> bool:
+        if isinstance(ct, s_objtypes.ObjectType):
+            return True
+        if isinstance(ct, (s_types.Tuple, s_types.Array)):
+            return any(has_object(st) for st in ct.get_subtypes(ctx.schema))
+        return False
+
+    def name_of(ct: s_types.Type) -> s_name.Name:
+        if isinstance(ct, s_objtypes.ObjectType):
+            return _get_object_type_name(ct, ctx=ctx)
+        if isinstance(ct, s_types.Tuple) and has_object(ct):
+            return s_types.Tuple.generate_name(
+                {
+                    n: name_of(st)
+                    for n, st in ct.get_element_types(
+                        ctx.schema).items(ctx.schema)
+                },
+                named=ct.is_named(ctx.schema),
+            )
+        if isinstance(ct, s_types.Array) and has_object(ct):
+            (st,) = ct.get_subtypes(ctx.schema)
+            return s_types.Array.generate_name(name_of(st))
+        ctx.schema, mt = ct.material_type(ctx.schema)
+        return mt.get_name(ctx.schema)
+
+    return name_of(t)
+
+
 def _get_set_type_id(basetype_id: uuid.UUID) -> uuid.UUID:
     return uuidgen.uuid5(
         s_obj.TYPE_ID_NAMESPACE, 'set-of::' + str(basetype_id))
@@ -417,8 +458,7 @@ def _describe_tuple(t: s_types.Tuple, *, ctx: Context) -> uuid.UUID:
         # .name
         # (of the material type: the names of views among the subtypes
         # are not stable, while the descriptor id does not depend on them)
-        ctx.schema, mt = t.material_type(ctx.schema)
-        buf.append(_name_packer(mt.get_name(ctx.schema)))
+        buf.append(_name_packer(_get_collection_name(t, ctx=ctx)))
         # .schema_defined
         buf.append(_bool_packer(t.get_is_persistent(ctx.schema)))
         # .ancestors
@@ -464,8 +504,7 @@ def _describe_array(t: s_types.Array, *, ctx: Context) -> uuid.UUID:
 
     if ctx.protocol_version >= (2, 0):
         # .name (of the material type, see _describe_tuple)
-        ctx.schema, mt = t.material_type(ctx.schema)
-        buf.append(_name_packer(mt.get_name(ctx.schema)))
+        buf.append(_name_packer(_get_collection_name(t, ctx=ctx)))
         # .schema_defined
         buf.append(_bool_packer(t.get_is_persistent(ctx.schema)))
         # .ancestors
